@@ -105,9 +105,9 @@ def run(tier: str, seed: int) -> int:
     chk.assumptions = ["races inside numba prange / parallel=True kernels are only explored differentially (not modelled)",
                        "CPython attribute stores are atomic (GIL) - the premise of the single-store cache pattern"]
     jobs = [dict(module="Caches", cfg=dict(spec="Spec", constants=dict(Threads={1, 2, 3}, Pattern="single_store", Keys={1, 2}), invariants=["UseSeesOwnAnswer", "CacheComplete"]),
-                 workers=4, timeout=900, name="caches"),
+                 workers=4, timeout=3000, name="caches"),
             dict(module="Caches", cfg=dict(spec="Spec", constants=dict(Threads={1, 2, 3}, Pattern="two_field", Keys={1, 2}), invariants=["UseSeesOwnAnswer"]),
-                 workers=4, timeout=900, name="caches-neg")]
+                 workers=4, timeout=3000, name="caches-neg")]
     base = dict(NIn=3, NOut=2, Mode="inside", Overwrite=False, PrevParts=0, MaxFaults=0, RetryMax=3, FixEmptyPlaceholder=True, AllowRerun=False)
     for v in ([dict(), dict(NIn=2, NOut=3, Mode="outside_uuid")] if quick else [dict(), dict(NIn=2, NOut=3, Mode="outside_uuid"), dict(NIn=3, NOut=3), dict(NIn=2, NOut=4, Mode="outside_fixed")]):
         c = dict(base)
@@ -140,7 +140,7 @@ def run(tier: str, seed: int) -> int:
         with open(path, "w") as fh:
             for e in events[:200000]:
                 fh.write(json.dumps(e) + "\n")
-        r = run_tlc("Trace_Caches", cfg=dict(invariants=["AllOK", "UsesExplained"], constants={}), env={"TRACE_FILE": path}, workers=1, timeout=1200)
+        r = run_tlc("Trace_Caches", cfg=dict(invariants=["AllOK", "UsesExplained"], constants={}), env={"TRACE_FILE": path}, workers=1, timeout=3000)
         chk.add_tlc(r)
         chk.traces += 1
         chk.notes["cache_events"] = len(events)
